@@ -216,10 +216,13 @@ def run_bounded(prop, tier, seed):
     return out
 
 
-def run_items(prop, tier, seed, items, expected, verbose=False):
+def run_items(prop, tier, seed, items, expected, verbose=False,
+              all_items=None):
     """verify + cross-check + triage a list of contracts; returns a
     JSON-able dict (so that shards can run in separate processes)"""
     eng = Engine(prop, tier, seed)
+    eng.modular = [c for c in (all_items or items)
+                   if getattr(c, 'modular', False)]
     for c in items:
         t1 = time.time()
         eng.verify(c)
@@ -357,7 +360,7 @@ def main(argv=None):
     if a.shard:
         i, n = [int(x) for x in a.shard.split('/')]
         mine = [c for k, c in enumerate(items) if k % n == i]
-        res = run_items(prop, tier, seed, mine, expected, a.v)
+        res = run_items(prop, tier, seed, mine, expected, a.v, items)
         with open(a.shard_out, 'w') as f:
             json.dump(res, f, default=str)
         return 0
